@@ -377,6 +377,14 @@ example : readTum "1 2 3 4 0 0 0 1\n1 2 3 4 0 0 0 1 9\n".toList = .error .format
 example : readTum "1 2 3 4 0 0 0 1\n1 2 3 4 0 0 x 1\n".toList = .error .format := by decide +kernel
 example : readTum "1 2 3 4 0 0 0 1\n1 2 3 4 0 0 0 1 \n".toList = .error .format := by decide +kernel
 example : readTum "1 2 3 4 0 0 0 1\n\n1 2 3 4 0 0 0 1\n".toList = .error .format := by decide +kernel
+/-- defects that cancel (`reject_wrong_column_count_any_row` speaks about *any* row, so the sum of the
+lengths is irrelevant): 7 + 9 entries, a misplaced line break 5 + 11, two joined rows + a blank row 16 + 0 -/
+example : readTum "1 2 3 4 0 0 0 1\n1 2 3 4 0 0 0\n1 1 2 3 4 0 0 0 1\n".toList = .error .format := by decide +kernel
+example : readTum "1 2 3 4 0 0 0 1\n1 2 3 4 0\n0 0 1 1 2 3 4 0 0 0 1\n".toList = .error .format := by decide +kernel
+example : readTum "1 2 3 4 0 0 0 1\n1 2 3 4 0 0 0 1 1 2 3 4 0 0 0 1\n\n".toList = .error .format := by decide +kernel
+example : readKitti "1 2 3 4 5 6 7 8 9 10 11 12\n1 2 3 4 5 6 7 8 9 10 11\n12 1 2 3 4 5 6 7 8 9 10 11 12\n".toList
+    = .error .format := by decide +kernel
+example : readEuroc "1,2,3,4,1,0,0,0\n1,2,3,4,1,0,0,0,9,9\n".toList = .error .format := by decide +kernel
 example : readTum "# only a comment\n".toList = .error .format := by decide +kernel
 example : readKitti "1 2 3 4 5 6 7 8 9 10 11 12\n".toList = .ok [⟨1, 2, 3, 4, 5, 6, 7, 8, 9, 10, 11, 12⟩] := by
   decide +kernel
